@@ -311,12 +311,21 @@ impl<'input> GrmtoolsSectionParser<'input> {
                                     end_pos,
                                 ));
                             }
+                            let elem_pos = j;
                             if let Ok((val, k)) = self.parse_setting(j) {
                                 vals.push(val);
                                 j = self.parse_ws(k);
                             }
                             if let Some(k) = self.lookahead_is(",", j) {
                                 j = k
+                            }
+                            if j == elem_pos {
+                                // Neither an element nor a ',' was consumed: without this
+                                // check the loop would spin forever at `j`.
+                                return Err(HeaderError {
+                                    kind: HeaderErrorKind::ExpectedToken(']'),
+                                    locations: vec![Span::new(j, j)],
+                                });
                             }
                         }
                     } else {
